@@ -579,6 +579,8 @@ func c12LimitCases(emit func(c12Case)) {
 		}
 		d.push(rc)
 	}
+	d.push(c12Rec{Kind: "other", raw: append(c12RecHdr(23, 1, 9, 4), 1, 2, 3, 4)}) // full buffer: still "not a handshake", no error
+	d.push(c12Rec{Kind: "bad", raw: []byte{22, 0xfe}})
 	d.advance(1) // nothing below 1 is cached: only the cursor moves
 	d.push(c12Rec{Kind: "hs", Ep: 1, Frags: []c12Frag{{Ty: 11, Len: 5000, Seq: 1, Off: 4999, Flen: 1, data: []byte{9}}}})
 	d.advance(2) // drops message 1: both counters return to 0
@@ -642,6 +644,192 @@ func c12WitnessCases(emit func(c12Case)) {
 	emit(c12Case{Leg: "boundary", ID: 1, Note: "capacity", Honest: true, Msgs: d.msgs, Ops: d.ops})
 }
 
+func c12Slice(m c12Msg, off, fl int) c12Frag {
+	return c12Frag{Ty: m.Ty, Len: len(m.body), Seq: m.Seq, Off: off, Flen: fl, data: m.body[off : off+fl]}
+}
+
+func c12Shuffle(r *c12Rand, a []c12Frag) {
+	for i := len(a) - 1; i > 0; i-- {
+		j := r.intn(i + 1)
+		a[i], a[j] = a[j], a[i]
+	}
+}
+
+// deliver per-message streams (order inside a stream preserved), randomly merged across message
+// sequences, 1-3 fragments per record
+func c12Deliver(r *c12Rand, d *c12Driver, streams [][]c12Frag) {
+	pos := make([]int, len(streams))
+	var merged []c12Frag
+	for {
+		var live []int
+		for i := range streams {
+			if pos[i] < len(streams[i]) {
+				live = append(live, i)
+			}
+		}
+		if len(live) == 0 {
+			break
+		}
+		i := live[r.intn(len(live))]
+		burst := 1 + r.intn(3)
+		for ; burst > 0 && pos[i] < len(streams[i]); burst-- {
+			merged = append(merged, streams[i][pos[i]])
+			pos[i]++
+		}
+	}
+	for i := 0; i < len(merged); {
+		k := 1 + r.intn(3)
+		if i+k > len(merged) {
+			k = len(merged) - i
+		}
+		fr := make([]c12Frag, k)
+		copy(fr, merged[i:i+k])
+		d.push(c12Rec{Kind: "hs", Ep: r.intn(3), Frags: fr})
+		i += k
+	}
+}
+
+// re-fragmenting peer: two or three different partitions of the same message, each with losses,
+// interleaved across several message sequences, including overlapping fragments whose lengths sum
+// exactly to the message length while bytes are still missing. Every fragment is a genuine slice:
+// whatever is popped must be the sender's message and every byte of it must have been received
+// (not popping is tolerated: completeness is only stated for one partition per message).
+func c12MultiCase(r *c12Rand, id int) c12Case {
+	nm := 1 + r.intn(3)
+	d := &c12Driver{fb: New(), small: true, ops: []c12Op{}}
+	streams := make([][]c12Frag, nm)
+	for s := 0; s < nm; s++ {
+		u, k := 1+r.intn(12), 2+r.intn(5)
+		n := u * k
+		if r.chance(25) {
+			n = 3 + r.intn(62)
+			u, k = 1+r.intn(n/2+1), 0
+		}
+		m := c12Msg{Ty: []int{1, 2, 11, 12, 16, 20}[r.intn(6)], Seq: s, Len: n, Mtu: u, body: r.bytes(n)}
+		m.Body = hex.EncodeToString(m.body)
+		d.msgs = append(d.msgs, m)
+		var core []c12Frag
+		mode := r.intn(4)
+		switch {
+		case mode == 0 && k >= 3:
+			// [0, a*u) of the MTU a*u partition + (k-a) fragments of the MTU u partition inside it:
+			// a*u + (k-a)*u == k*u with the tail [a*u, k*u) never received
+			a := (k+2)/2 + r.intn(k-(k+2)/2)
+			core = append(core, c12Slice(m, 0, a*u))
+			cand := r2perm(r, a-1)
+			for _, c := range cand[:k-a] {
+				core = append(core, c12Slice(m, (c+1)*u, u))
+			}
+			if r.chance(50) {
+				c12Shuffle(r, core)
+			}
+		case mode == 1 && n >= 3:
+			// arbitrary overlapping slices: sizes sum to n, first at offset 0, the others anywhere
+			// but where they would complete the message
+			parts := 2 + r.intn(3)
+			left := n
+			off0 := 1 + r.intn(n-2)
+			core = append(core, c12Slice(m, 0, off0))
+			left -= off0
+			used := map[int]bool{0: true}
+			for p := 1; p < parts && left > 0; p++ {
+				sz := left
+				if p < parts-1 && left > 1 {
+					sz = 1 + r.intn(left)
+				}
+				o := 1 + r.intn(n-sz+1-1+1)
+				if o+sz > n {
+					o = n - sz
+				}
+				if used[o] || o == 0 {
+					continue
+				}
+				used[o] = true
+				core = append(core, c12Slice(m, o, sz))
+				left -= sz
+			}
+		}
+		// the rest: 2-3 MTU partitions, each fragment lost with some probability, duplicates
+		var rest []c12Frag
+		np := 2 + r.intn(2)
+		lossless := r.chance(35)
+		for p := 0; p < np; p++ {
+			mtu := 1 + r.intn(n)
+			if p == 0 && k > 0 {
+				mtu = u
+			}
+			fr := c12Split(m, mtu)
+			if p == 0 && lossless && len(core) == 0 { // one partition arrives completely first: message pops
+				rest = append(rest, fr...)
+
+				continue
+			}
+			var kept []c12Frag
+			for _, f := range fr {
+				if !r.chance(35) {
+					kept = append(kept, f)
+				}
+				if r.chance(10) {
+					kept = append(kept, f)
+				}
+			}
+			if r.chance(60) {
+				c12Shuffle(r, kept)
+			}
+			rest = append(rest, kept...)
+		}
+		if !(lossless && len(core) == 0) && r.chance(50) {
+			c12Shuffle(r, rest)
+		}
+		streams[s] = append(core, rest...)
+	}
+	c12Deliver(r, d, streams)
+
+	return c12Case{Leg: "multi", ID: id, Honest: true, Msgs: d.msgs, Ops: d.ops}
+}
+
+func r2perm(r *c12Rand, n int) []int {
+	p := make([]int, n)
+	for i := range p {
+		p[i] = i
+	}
+	for i := n - 1; i > 0; i-- {
+		j := r.intn(i + 1)
+		p[i], p[j] = p[j], p[i]
+	}
+
+	return p
+}
+
+// fixed members of the multi leg: a 300-byte message whose peer re-fragments from 200 to 100 bytes
+// after a loss ([0,200) received, [200,300) lost, retransmitted [100,200) received: 200+100 == 300),
+// alone and interleaved with a second message sequence in the same situation
+func c12MultiFixed(emit func(c12Case)) {
+	r := &c12Rand{s: 12}
+	mk := func(seq, n int) c12Msg {
+		b := r.bytes(n)
+		for i := range b { // no zero bytes: a zero-filled hole can never equal the message
+			b[i] |= 1
+		}
+
+		return c12Msg{Ty: 11, Seq: seq, Len: n, body: b, Body: hex.EncodeToString(b)}
+	}
+	one := func(fr ...c12Frag) c12Rec { return c12Rec{Kind: "hs", Ep: 0, Frags: fr} }
+	m0 := mk(0, 300)
+	d := &c12Driver{fb: New(), small: true, msgs: []c12Msg{m0}}
+	d.push(one(c12Slice(m0, 0, 200)))
+	d.push(one(c12Slice(m0, 100, 100)))
+	emit(c12Case{Leg: "multi", ID: -1, Note: "300 = [0,200) + [100,200)", Honest: true, Msgs: d.msgs, Ops: d.ops})
+
+	m1 := mk(1, 90)
+	d = &c12Driver{fb: New(), small: true, msgs: []c12Msg{m0, m1}}
+	d.push(one(c12Slice(m1, 0, 60)))
+	d.push(one(c12Slice(m0, 0, 200), c12Slice(m1, 30, 30)))
+	d.push(one(c12Slice(m0, 100, 100)))
+	d.push(one(c12Slice(m0, 200, 100), c12Slice(m1, 60, 30)))
+	emit(c12Case{Leg: "multi", ID: -2, Note: "two message sequences interleaved", Honest: true, Msgs: d.msgs, Ops: d.ops})
+}
+
 // TestVerifC12Buffer emits all legs.
 func TestVerifC12Buffer(t *testing.T) {
 	out := newC12Out(t)
@@ -653,6 +841,7 @@ func TestVerifC12Buffer(t *testing.T) {
 	emit := func(c c12Case) { out.emit(c) }
 	c12WitnessCases(emit)
 	c12LimitCases(emit)
+	c12MultiFixed(emit)
 	if c12Thorough() {
 		c12Exhaustive(emit, 5, 3)
 	} else {
@@ -663,6 +852,9 @@ func TestVerifC12Buffer(t *testing.T) {
 	}
 	for i := 0; i < 1500*mult; i++ {
 		out.emit(c12HostileCase(r, i))
+	}
+	for i := 0; i < 1500*mult; i++ {
+		out.emit(c12MultiCase(r, i))
 	}
 	for i := 0; i < 300*mult; i++ {
 		out.emit(c12HonestCase(r, "big", i, 40000, 2000, false))
